@@ -421,6 +421,65 @@ pub fn run_op(op: &str, a: &[Tok]) -> String {
             };
             fmt_unit(&p.verify(PublicKey::<C>(tok_pk(&a[3])), a[4].bytes(), ProofCommitmentChallenge(tok_scalar(&a[5]))))
         }
+        "pokts_generate" => {
+            let sg = mk_sig(a[1].scheme(), tok_sig(&a[2]));
+            let (r, d) = with_seeds(a[3].list(), || ProofOfKnowledgeTimestamp::<C>::generate(a[0].bytes(), sg));
+            match r {
+                Ok(p) => {
+                    let (sn, u, v) = match p.proof {
+                        ProofOfKnowledge::Basic { u, v } => ("basic", u, v),
+                        ProofOfKnowledge::MessageAugmentation { u, v } => ("aug", u, v),
+                        ProofOfKnowledge::ProofOfPossession { u, v } => ("pop", u, v),
+                    };
+                    format!("ok:{}:{}:{}:{}:draws={} @now={}", sn, hexpt(&u), hexpt(&v), p.timestamp, d, (p.timestamp as u128) * 1_000_000)
+                }
+                Err(e) => format!("err:{}:draws={}", err_kind(&e), d),
+            }
+        }
+        "pokts_verify_rel" => {
+            // honest timestamp proof built for t = now + offset (ms), verified with the given timeout
+            let sk = SecretKey::<C>(tok_scalar(&a[0]));
+            let x = tok_scalar(&a[1]);
+            let scheme = a[2].scheme();
+            let msg = a[3].bytes();
+            let offset: i128 = a[4].word().parse().expect("offset");
+            let timeout: Option<u64> = a[5].opt().map(|t| t.num() as u64);
+            let dst: &[u8] = match scheme {
+                0 => <C as BlsSignatureBasic>::DST,
+                1 => <C as BlsSignatureMessageAugmentation>::DST,
+                _ => <C as BlsSignaturePop>::SIG_DST,
+            };
+            let sig = *sk.sign(scheme_of(scheme), msg).expect("sign").as_raw_value();
+            let u = <C as HashToPoint>::hash_to_point(msg, dst) * x;
+            let now_before = std::time::SystemTime::now().duration_since(std::time::UNIX_EPOCH).unwrap().as_nanos();
+            let t_wide = (now_before / 1_000_000) as i128 + offset;
+            let t: u64 = if t_wide < 0 { 0 } else if t_wide > u64::MAX as i128 { u64::MAX } else { t_wide as u64 };
+            let y = <C as BlsSignatureProof>::compute_y(u, t);
+            let v = -(sig * (x + y));
+            let pr = match scheme {
+                0 => ProofOfKnowledge::<C>::Basic { u, v },
+                1 => ProofOfKnowledge::<C>::MessageAugmentation { u, v },
+                _ => ProofOfKnowledge::<C>::ProofOfPossession { u, v },
+            };
+            let p = ProofOfKnowledgeTimestamp::<C> { proof: pr, timestamp: t };
+            let r = p.verify(sk.public_key(), msg, timeout);
+            let now_after = std::time::SystemTime::now().duration_since(std::time::UNIX_EPOCH).unwrap().as_nanos();
+            // the verdict must not depend on where in [now_before, now_after] the library read the clock
+            let expired = |now: u128| -> bool {
+                match timeout {
+                    None => false,
+                    Some(tmo) => {
+                        let since = (t as u128) * 1_000_000;
+                        if since > now { true } else { (((now - since) / 1_000_000) as u64) > tmo }
+                    }
+                }
+            };
+            if expired(now_before) != expired(now_after) {
+                "skip".to_string()
+            } else {
+                format!("{} @now={}", fmt_unit(&r), now_before)
+            }
+        }
         "compute_y" => hex::encode(bsc_be(&<C as BlsSignatureProof>::compute_y(tok_sig(&a[0]), a[1].num() as u64))),
         _ => format!("unknown-op:{op}"),
     }
